@@ -264,6 +264,47 @@ func c15reads(env *core.Env) {
 			env.Failf("C15/reads/"+op.Kind.String()+"/policies-disagree", "%s [%s]: sequential policy: %s; concurrent policy: %s", op, class, a, b)
 		}
 	}
+	// A listing of one member breaks off midway: the union is not known, so the
+	// unified listing must end with an error, never look like a shorter union.
+	if c.Bool("member-listing-fault", 1, 2) {
+		bad := c.Int("fault.member", 2)
+		at := c.Range("fault.after", 0, 3)
+		what := []reg.Kind{reg.Repositories, reg.Tags, reg.Referrers}[c.Int("fault.listing", 3)]
+		fired := false
+		plan := &reg.FaultPlan{IterFailAfter: func(call *reg.Call) (int, error) {
+			if call.Method != what.String() {
+				return -1, nil
+			}
+			return at, ociregistry.NewError("injected listing failure", "VERIF_INJECTED", nil)
+		}}
+		var ms [2]ociregistry.Interface
+		for m := 0; m < 2; m++ {
+			if m == bad {
+				ms[m] = reg.Wrap(mems[m], reg.NewTracker(), plan)
+			} else {
+				ms[m] = mems[m]
+			}
+		}
+		r := repos[c.Int("fault.repo", len(repos))]
+		op := &reg.Op{Kind: what, Repo: r, Digest: subj, StopAfter: -1, ContentFault: -1}
+		for p, pol := range []ociunify.ReadPolicy{ociunify.ReadSequential, ociunify.ReadConcurrent} {
+			plan.IterFaultsDelivered = 0
+			u := ociunify.New(ms[0], ms[1], &ociunify.Options{ReadPolicy: pol})
+			res := reg.Exec(ctx, u, op, nil)
+			fired = plan.IterFaultsDelivered > 0
+			if fired {
+				env.Fault("member-listing-fails")
+			}
+			env.Op(fmt.Sprintf("%s/member%d-listing-fails@%d/%v", what, bad, at, res.ListErr != nil))
+			env.Logf("%s with member %d's listing failing after %d item(s) (%s policy) -> %s", op, bad, at, polName[p], res)
+			if fired && res.ListErr == nil && res.Err == nil {
+				env.Failf("C15/reads/"+what.String()+"/member-listing-error-swallowed", "%s through the unifier (%s policy): member %d's listing failed after %d item(s) but the unified listing ended without error: %s", op, polName[p], bad, at, res)
+			}
+			if res.ExtraCalls > 0 {
+				env.Failf("C15/reads/"+what.String()+"/consumer-called-after-end", "%s through the unifier (%s policy): the consumer was called %d more time(s) after the error", op, polName[p], res.ExtraCalls)
+			}
+		}
+	}
 }
 
 func c15writes(env *core.Env, faulty bool) {
